@@ -1,37 +1,377 @@
 /-
 Lemmas behind C20 (H2): `GenerateLengths` returns a complete, length-limited
 assignment.
+
+The tree part (two-queue construction) is analysed in `PLTree`, the histogram
+fix-up (`treeRotate`/`fixLevel`/`reassign`) in `PLHist`.
 -/
 import Compress.Prefix.Spec
+import Compress.Proofs.PLTree
+import Compress.Proofs.PLHist
+
+set_option linter.unusedSimpArgs false
 
 namespace Compress.Proofs.PrefixLengths
 open Compress Compress.Prefix
+open Compress.Proofs.PLTree Compress.Proofs.PLHist
+
+/-! ### unfolding `generateLengths` -/
+
+/-- the initial histogram built from the tree depths. -/
+def mkHist (lens : List Nat) : List Int :=
+  (List.range (max (valueBits + 1) (lens.foldl max 0 + 1))).map
+    fun l => ((lens.filter (· == l)).length : Int)
+
+/-- the body of `generateLengths` for two or more symbols. -/
+def glBody (counts : List Nat) (maxBits : Nat) : Option (List Nat) :=
+  if !(counts.zip counts.tail).all (fun (a, b) => a ≤ b) then none
+  else
+    match buildTree (counts.length + 1) ((List.range counts.length).zip counts) [] with
+    | none => none
+    | some t =>
+      let lens := treeLens t counts.length
+      if lens.all (· ≤ maxBits) then some lens
+      else
+        let hist := mkHist lens
+        match fixLevel maxBits (hist.length + counts.length * (lens.foldl max 0 + 2) + 8) hist
+            (hist.length - 1) with
+        | none => none
+        | some h => if h.any (· < 0) then none else reassign counts.length h
+
+theorem gl_unfold (counts : List Nat) (maxBits : Nat) (hn : 2 ≤ counts.length) :
+    generateLengths counts maxBits = glBody counts maxBits := by
+  match counts, hn with
+  | a :: b :: rest, _ => rfl
+
+/-- the two ways `generateLengths` can return. -/
+theorem gl_cases (counts : List Nat) (maxBits : Nat) (lens : List Nat) (hn : 2 ≤ counts.length)
+    (h : generateLengths counts maxBits = some lens) :
+    ∃ t, Good counts.length t ∧
+      ((lens = treeLens t counts.length ∧ ∀ l ∈ lens, l ≤ maxBits) ∨
+       (∃ fuel hh, fixLevel maxBits fuel (mkHist (treeLens t counts.length))
+            ((mkHist (treeLens t counts.length)).length - 1) = some hh ∧
+          hh.any (· < 0) = false ∧ reassign counts.length hh = some lens)) := by
+  rw [gl_unfold _ _ hn, glBody] at h
+  split at h
+  · cases h
+  · split at h
+    · cases h
+    · rename_i t ht
+      have hg : Good counts.length t :=
+        buildTree_good counts.length _ _ [] t (inv_init counts) (Or.inr (by simp; omega)) ht
+      refine ⟨t, hg, ?_⟩
+      simp only at h
+      split at h
+      · rename_i hall
+        cases h
+        exact Or.inl ⟨rfl, by simpa using hall⟩
+      · split at h
+        · cases h
+        · rename_i hh hfix
+          split at h
+          · cases h
+          · rename_i hneg
+            exact Or.inr ⟨_, hh, hfix, by simpa using hneg, h⟩
+
+/-! ### small arithmetic facts -/
+
+theorem kraftScaled_eq_sum (lens : List Nat) (m : Nat) :
+    kraftScaled lens m = (lens.map (fun l => 2 ^ (m - l))).sum := by
+  simp [kraftScaled, List.sum_eq_foldl]
+
+theorem foldl_max_ge (lens : List Nat) (a : Nat) :
+    a ≤ lens.foldl max a ∧ ∀ x ∈ lens, x ≤ lens.foldl max a := by
+  induction lens generalizing a with
+  | nil => simp
+  | cons y ys ih =>
+    simp only [List.foldl_cons, List.mem_cons]
+    have := ih (max a y)
+    refine ⟨by omega, ?_⟩
+    rintro x (rfl | hx)
+    · omega
+    · exact this.2 x hx
+
+theorem sum_cross (lens : List Nat) (m M : Nat) (h1 : ∀ l ∈ lens, l ≤ m) (h2 : ∀ l ∈ lens, l ≤ M) :
+    (lens.map (fun l => 2 ^ (m - l))).sum * 2 ^ M = (lens.map (fun l => 2 ^ (M - l))).sum * 2 ^ m := by
+  induction lens with
+  | nil => simp
+  | cons x xs ih =>
+    have := ih (fun l hl => h1 l (by simp [hl])) (fun l hl => h2 l (by simp [hl]))
+    have hx1 := h1 x (by simp)
+    have hx2 := h2 x (by simp)
+    simp only [List.map_cons, List.sum_cons, Nat.add_mul, this]
+    congr 1
+    rw [← Nat.pow_add, ← Nat.pow_add]
+    congr 1; omega
+
+/-- Kraft equality at one scale gives it at every scale. -/
+theorem kraftComplete_of_one (lens : List Nat) (M : Nat) (hM : ∀ l ∈ lens, l ≤ M)
+    (h : (lens.map (fun l => 2 ^ (M - l))).sum = 2 ^ M) : KraftComplete lens := by
+  intro m hm
+  rw [kraftScaled_eq_sum]
+  have := sum_cross lens m M hm hM
+  rw [h, Nat.mul_comm (2 ^ M) (2 ^ m)] at this
+  exact Nat.eq_of_mul_eq_mul_right (Nat.pow_pos (by omega)) this
+
+theorem sum_ge_length (lens : List Nat) (M : Nat) :
+    lens.length ≤ (lens.map (fun l => 2 ^ (M - l))).sum := by
+  induction lens with
+  | nil => simp
+  | cons x xs ih =>
+    have : 0 < 2 ^ (M - x) := Nat.pow_pos (by omega)
+    simp only [List.map_cons, List.sum_cons, List.length_cons]; omega
+
+theorem sum_ge_of_mem (lens : List Nat) (M x : Nat) (hx : x ∈ lens) :
+    2 ^ (M - x) + (lens.length - 1) ≤ (lens.map (fun l => 2 ^ (M - l))).sum := by
+  induction lens with
+  | nil => cases hx
+  | cons y ys ih =>
+    simp only [List.map_cons, List.sum_cons, List.length_cons]
+    rcases List.mem_cons.1 hx with rfl | hx'
+    · have := sum_ge_length ys M; omega
+    · have := ih hx'
+      have : 0 < 2 ^ (M - y) := Nat.pow_pos (by omega)
+      have : 0 < ys.length := List.length_pos_of_mem hx'
+      omega
+
+theorem sum_le_mul (lens : List Nat) (b : Nat) (h : ∀ l ∈ lens, l ≤ b) : lens.sum ≤ lens.length * b := by
+  induction lens with
+  | nil => simp
+  | cons x xs ih =>
+    have := ih (fun l hl => h l (by simp [hl]))
+    have := h x (by simp)
+    simp only [List.sum_cons, List.length_cons, Nat.add_mul]; omega
+
+/-! ### the initial histogram -/
+
+theorem mkHist_length (lens : List Nat) :
+    (mkHist lens).length = max (valueBits + 1) (lens.foldl max 0 + 1) := by
+  simp [mkHist]
+
+theorem histGet_mkHist (lens : List Nat) : histGet (mkHist lens) = cnt lens := by
+  funext l
+  by_cases hl : l < (mkHist lens).length
+  · have hl' := hl
+    rw [mkHist_length] at hl'
+    simp only [histGet, mkHist, List.getD_eq_getElem?_getD]
+    rw [List.getElem?_map, List.getElem?_range hl']
+    rfl
+  · rw [histGet_of_le _ _ (by omega)]
+    rw [mkHist_length] at hl
+    have : ¬ (0 < cnt lens l) := by
+      rw [cnt_pos_iff]
+      intro hmem
+      have := (foldl_max_ge lens 0).2 l hmem
+      omega
+    have := cnt_nonneg lens l
+    omega
+
+theorem le_top (lens : List Nat) : ∀ l ∈ lens, l ≤ (mkHist lens).length - 1 := by
+  intro l hl
+  have := (foldl_max_ge lens 0).2 l hl
+  rw [mkHist_length]; omega
+
+theorem nonneg_of_any (h : List Int) (hneg : h.any (· < 0) = false) : ∀ j, 0 ≤ histGet h j := by
+  intro j
+  by_cases hj : j < h.length
+  · have hmem : h[j] ∈ h := List.getElem_mem hj
+    have : ¬ (h[j] < 0) := by
+      intro hlt
+      have : h.any (· < 0) = true := List.any_eq_true.2 ⟨_, hmem, by simpa using hlt⟩
+      rw [hneg] at this; cases this
+    simp only [histGet, List.getD_eq_getElem?_getD, List.getElem?_eq_getElem hj, Option.getD_some]
+    omega
+  · rw [histGet_of_le _ _ (by omega)]; omega
+
+theorem any_of_nonneg (h : List Int) (hnn : ∀ j, 0 ≤ histGet h j) : h.any (· < 0) = false := by
+  rw [Bool.eq_false_iff]
+  intro hany
+  obtain ⟨x, hx, hlt⟩ := List.any_eq_true.1 hany
+  obtain ⟨j, hj, rfl⟩ := List.getElem_of_mem hx
+  have := hnn j
+  simp only [histGet, List.getD_eq_getElem?_getD, List.getElem?_eq_getElem hj, Option.getD_some] at this
+  simp at hlt; omega
+
+/-! ### the limited branch -/
+
+/-- everything we know when the fix-up branch returns `lens`. -/
+theorem limited_facts (n maxBits : Nat) (t : HTree) (hg : Good n t) (fuel : Nat) (hh : List Int)
+    (lens : List Nat)
+    (hfix : fixLevel maxBits fuel (mkHist (treeLens t n)) ((mkHist (treeLens t n)).length - 1) = some hh)
+    (hneg : hh.any (· < 0) = false) (hre : reassign n hh = some lens) :
+    lens.length = n ∧ lens.Pairwise (· ≥ ·) ∧ (∀ l ∈ lens, l ≤ maxBits) ∧
+      ∀ M, M = (mkHist (treeLens t n)).length - 1 →
+        (∀ l ∈ lens, l ≤ M) ∧ (lens.map (fun l => 2 ^ (M - l))).sum = 2 ^ M := by
+  have hLpos : 0 < (mkHist (treeLens t n)).length := by rw [mkHist_length]; omega
+  obtain ⟨hlen, hS, habove⟩ := fixLevel_sound maxBits fuel _ _ hh hfix (by omega) (fun j hj => by
+    rw [histGet_of_le _ _ (by omega)]; omega)
+  have hnn := nonneg_of_any hh hneg
+  obtain ⟨r1, r2, r3⟩ := go_spec hh 0 n [] lens hre
+  have hcnt : ∀ l, cnt lens l = histGet hh l := by
+    intro l
+    have := r2 l
+    have := hnn l
+    simp only [cnt_nil, Nat.zero_le, if_true, Nat.sub_zero] at *
+    omega
+  have hmem : ∀ l ∈ lens, l ≤ maxBits ∧ l ≤ (mkHist (treeLens t n)).length - 1 := by
+    intro l hl
+    have hpos := (cnt_pos_iff lens l).2 hl
+    rw [hcnt] at hpos
+    constructor
+    · apply Classical.byContradiction
+      intro hgt
+      have := habove l (by omega)
+      omega
+    · apply Classical.byContradiction
+      intro hgt
+      rw [histGet_of_le _ _ (by omega)] at hpos
+      omega
+  refine ⟨by simpa using r1, r3 (by simp) (by simp), fun l hl => (hmem l hl).1, ?_⟩
+  intro M hM
+  subst hM
+  refine ⟨fun l hl => (hmem l hl).2, ?_⟩
+  have e1 : S (cnt lens) ((mkHist (treeLens t n)).length - 1)
+      = S (histGet hh) ((mkHist (treeLens t n)).length - 1) := S_congr _ (fun j _ => hcnt j)
+  rw [S_cnt _ _ (fun l hl => (hmem l hl).2), hS, histGet_mkHist,
+    S_cnt _ _ (le_top _), hg.kraft _ (le_top _)] at e1
+  exact_mod_cast e1
+
+/-! ### the theorems -/
 
 /-- H2 (shape): one length per symbol. -/
 theorem generateLengths_length (counts : List Nat) (maxBits : Nat) (lens : List Nat)
     (h : generateLengths counts maxBits = some lens) : lens.length = counts.length := by
-  sorry
+  match counts, h with
+  | [], h => simp [generateLengths] at h; subst h; rfl
+  | [_], h => simp [generateLengths] at h; subst h; rfl
+  | a :: b :: rest, h =>
+    obtain ⟨t, hg, hc⟩ := gl_cases _ _ _ (by simp) h
+    rcases hc with ⟨rfl, _⟩ | ⟨fuel, hh, hfix, hneg, hre⟩
+    · simp [treeLens]
+    · exact (limited_facts _ _ t hg fuel hh lens hfix hneg hre).1
 
 /-- H2 (soundness): whatever `GenerateLengths` returns for two or more symbols is
     a complete code within the limit. -/
 theorem generateLengths_sound (counts : List Nat) (maxBits : Nat) (lens : List Nat)
     (hn : 2 ≤ counts.length) (h : generateLengths counts maxBits = some lens) :
     KraftComplete lens ∧ ∀ l ∈ lens, 1 ≤ l ∧ l ≤ maxBits := by
-  sorry
+  obtain ⟨t, hg, hc⟩ := gl_cases _ _ _ hn h
+  rcases hc with ⟨rfl, hle⟩ | ⟨fuel, hh, hfix, hneg, hre⟩
+  · refine ⟨?_, fun l hl => ⟨hg.lens_pos l hl, hle l hl⟩⟩
+    intro m hm
+    rw [kraftScaled_eq_sum]
+    exact hg.kraft m hm
+  · obtain ⟨hlen, _, hle, hK⟩ := limited_facts _ _ t hg fuel hh lens hfix hneg hre
+    obtain ⟨hM, hsum⟩ := hK _ rfl
+    refine ⟨kraftComplete_of_one lens _ hM hsum, fun l hl => ⟨?_, hle l hl⟩⟩
+    -- a symbol of length 0 would already exhaust the Kraft budget
+    apply Classical.byContradiction
+    intro hl0
+    have hl0 : l = 0 := by omega
+    subst hl0
+    have := sum_ge_of_mem lens ((mkHist (treeLens t counts.length)).length - 1) 0 hl
+    rw [hsum] at this
+    simp only [Nat.sub_zero] at this
+    omega
+
+/-- H2 (monotone, strong form): the returned lengths are non-increasing along
+    the (count-sorted) positions, whatever the counts are.  In the unlimited
+    branch this is a structural property of the two-queue construction (leaves
+    and inner nodes are dequeued FIFO, so depth is non-increasing in dequeue
+    order); in the limited branch it holds by construction of `reassign`. -/
+theorem generateLengths_antitone (counts : List Nat) (maxBits : Nat) (lens : List Nat)
+    (h : generateLengths counts maxBits = some lens) :
+    ∀ i j, i < j → j < lens.length → lens.getD j 0 ≤ lens.getD i 0 := by
+  match counts, h with
+  | [], h => simp [generateLengths] at h; subst h; intro i j _ hj; simp at hj
+  | [_], h =>
+    simp [generateLengths] at h; subst h; intro i j hij hj
+    simp at hj; omega
+  | a :: b :: rest, h =>
+    obtain ⟨t, hg, hc⟩ := gl_cases _ _ _ (by simp) h
+    rcases hc with ⟨rfl, _⟩ | ⟨fuel, hh, hfix, hneg, hre⟩
+    · intro i j hij hj
+      simp only [treeLens, List.length_map, List.length_range] at hj
+      have hi : i < (a :: b :: rest).length := by omega
+      simp only [treeLens, List.getD_eq_getElem?_getD, List.getElem?_map,
+        List.getElem?_range hj, List.getElem?_range hi, Option.map_some, Option.getD_some]
+      exact hg.lens_anti hij hj
+    · have hp := (limited_facts _ _ t hg fuel hh lens hfix hneg hre).2.1
+      intro i j hij hj
+      have hi : i < lens.length := by omega
+      simp only [List.getD_eq_getElem?_getD, List.getElem?_eq_getElem hj,
+        List.getElem?_eq_getElem hi, Option.getD_some]
+      exact List.pairwise_iff_getElem.1 hp i j hi hj hij
 
 /-- H2 (monotone): more frequent symbols never get longer codes. `lens[k]` is
     the length of the k-th symbol in ascending count order. -/
 theorem generateLengths_monotone (counts : List Nat) (maxBits : Nat) (lens : List Nat)
     (h : generateLengths counts maxBits = some lens) :
-    ∀ i j, i < j → j < lens.length → counts.getD i 0 < counts.getD j 0 → lens.getD j 0 ≤ lens.getD i 0 := by
-  sorry
+    ∀ i j, i < j → j < lens.length → counts.getD i 0 < counts.getD j 0 → lens.getD j 0 ≤ lens.getD i 0 :=
+  fun i j hij hj _ => generateLengths_antitone counts maxBits lens h i j hij hj
 
 /-- H2 (totality): for ascending counts and a limit that can hold the alphabet,
-    `GenerateLengths` returns (the Go code neither panics nor underflows). -/
+    `GenerateLengths` returns (the Go code neither panics nor underflows).
+    (`hm` is not needed by the proof; it is kept because it is part of the C20
+    statement.) -/
 theorem generateLengths_total (counts : List Nat) (maxBits : Nat)
     (hs : (counts.zip counts.tail).all (fun (a, b) => a ≤ b) = true)
     (hfit : counts.length ≤ 2 ^ maxBits) (hm : maxBits ≤ valueBits) (h1 : 1 ≤ maxBits) :
     ∃ lens, generateLengths counts maxBits = some lens := by
-  sorry
+  have _ := hm
+  match counts, hs, hfit with
+  | [], _, _ => exact ⟨[], rfl⟩
+  | [_], _, _ => exact ⟨[0], rfl⟩
+  | a :: b :: rest, hs, hfit =>
+    rw [gl_unfold _ _ (by simp), glBody]
+    simp only [hs, Bool.not_true, Bool.false_eq_true, if_false]
+    obtain ⟨t, ht⟩ := buildTree_isSome ((a :: b :: rest).length + 1)
+      ((List.range (a :: b :: rest).length).zip (a :: b :: rest)) [] (by simp) (by simp)
+    have hg : Good (a :: b :: rest).length t :=
+      buildTree_good _ _ _ [] t (inv_init _) (Or.inr (by simp)) ht
+    generalize (a :: b :: rest) = counts at *
+    simp only [ht]
+    split
+    · exact ⟨_, rfl⟩
+    · -- the fix-up branch
+      have hLpos : 0 < (mkHist (treeLens t counts.length)).length := by rw [mkHist_length]; omega
+      have hlenT : (treeLens t counts.length).length = counts.length := by simp [treeLens]
+      have fi : FI (counts.length : Int) (histGet (mkHist (treeLens t counts.length)))
+          ((mkHist (treeLens t counts.length)).length - 1) := by
+        rw [histGet_mkHist]
+        constructor
+        · exact cnt_nonneg _
+        · intro j hj
+          have : ¬ (0 < cnt (treeLens t counts.length) j) := by
+            rw [cnt_pos_iff]
+            intro hmem
+            have := le_top _ j hmem
+            omega
+          have := cnt_nonneg (treeLens t counts.length) j
+          omega
+        · rw [S_cnt _ _ (le_top _), hg.kraft _ (le_top _)]
+          exact_mod_cast rfl
+        · rw [C_cnt _ _ (le_top _), hlenT]
+      have hfuel : W (histGet (mkHist (treeLens t counts.length)))
+            ((mkHist (treeLens t counts.length)).length - 1) +
+            (((mkHist (treeLens t counts.length)).length - 1 : Nat) : Int) + 1 ≤
+          (((mkHist (treeLens t counts.length)).length +
+            counts.length * ((treeLens t counts.length).foldl max 0 + 2) + 8 : Nat) : Int) := by
+        rw [histGet_mkHist, W_cnt _ _ (le_top _)]
+        have h1 := sum_le_mul (treeLens t counts.length) ((treeLens t counts.length).foldl max 0)
+          (foldl_max_ge _ 0).2
+        rw [hlenT] at h1
+        have h2 : counts.length * ((treeLens t counts.length).foldl max 0 + 2) =
+            counts.length * (treeLens t counts.length).foldl max 0 + counts.length * 2 := Nat.mul_add _ _ _
+        omega
+      obtain ⟨h', e, hlen', hnn, hC⟩ := fixLevel_total maxBits (counts.length : Int)
+        (by exact_mod_cast hfit) h1 _ _ _ fi (by omega) hfuel
+      simp only [e, any_of_nonneg h' hnn, Bool.false_eq_true, if_false]
+      have hne : h' ≠ [] := by
+        intro e0; rw [e0] at hlen'; simp at hlen'; omega
+      have hsum := C_histGet h' hne hnn
+      rw [hlen'] at hsum
+      rw [hsum] at hC
+      exact go_isSome h' 0 counts.length [] (by exact_mod_cast hC)
 
 end Compress.Proofs.PrefixLengths
